@@ -89,6 +89,8 @@ func dispatchTable(u *Universe) (map[string]string, map[string]string, []string,
 			return "subscribe"
 		case ai.Callee != nil && isMethod(ai.Callee, pErrors, "ErrorCode", "New"):
 			return "error"
+		case ai.Callee != nil && alwaysNewError(u, ai.Callee):
+			return "error" // a small function of the handler that only builds the refusal
 		case ai.Callee != nil && oldObjName(ai.Callee) == "initClientInfoWithDatatypeDoc":
 			return "proceed"
 		}
@@ -266,13 +268,16 @@ var r131 = []cellOb{
 	{"C", "caseAllMatchedSubscribed", []string{"proceed"}, "the retry of a create that was already committed (response lost) must go on as a normal push-pull"},
 	{"S", "caseAllMatchedSubscribed", []string{"proceed", "subscribe"}, "the retry of a subscribe that was already committed must not be refused (whether it has to subscribe again is R13.6)"},
 	{"S|C", "caseAllMatchedSubscribed", []string{"proceed", "subscribe"}, "the retry of a subscribe-or-create that was already committed must not be refused (whether it has to subscribe again is R13.6)"},
+	{"C", "caseUsedDUID", []string{"error"}, "create with a DUID that belongs to another datatype must be refused (going on would attach the requester to that datatype)"},
+	{"S", "caseAllMatchedNotVisible", []string{"error"}, "subscribe to a hidden datatype must be refused"},
+	{"S|C", "caseAllMatchedNotVisible", []string{"error"}, "subscribe-or-create on a hidden datatype must be refused"},
 	{"S|C", "caseUsedDUID", []string{"create", "error"}, "the key does not exist here and the DUID belongs to another datatype: create under a new DUID or refuse, never attach to the foreign datatype"},
 }
 
 // R13.1 the dispatch table against the contract
 func ruleR13_1(w *World, r *Report) {
 	u := w.Server()
-	r.Rule("R13.1", "the (option bits, case) dispatch table of processSubscribeOrCreate gives the outcomes the contract fixes: create-only with an existing key, subscribe-only without the key and any use with a different type are refused; subscribe-or-create creates a new key and subscribes to an existing one; a repeated request of an already subscribed client proceeds", 15)
+	r.Rule("R13.1", "the (option bits, case) dispatch table of processSubscribeOrCreate gives the outcomes the contract fixes: create-only with an existing key, subscribe-only without the key and any use with a different type are refused; subscribe-or-create creates a new key and subscribes to an existing one; a repeated request of an already subscribed client proceeds", 18)
 	table, pos, _, ok := dispatchTable(u)
 	if !ok {
 		r.Undecided("processSubscribeOrCreate/table", "", "the if-chain over (subscribe&&create, subscribe, create) with a switch over the case was not recognised")
@@ -646,4 +651,33 @@ func ruleR13_3(w *World, r *Report) {
 		}
 		r.Check(waiting, "checkOptionAndError/subscribe reset only while waiting", u.Pos(co.Pos()), "state is DUE_TO_SUBSCRIBE or DUE_TO_SUBSCRIBE_CREATE on every path to the reset", "a response carrying the subscribe bit resets the wire state, the snapshot or the checkpoint of a replica that is not waiting for its subscription (path: "+bad+"): a duplicated or delayed subscribe response wipes a subscribed replica and the operations it has not pushed yet")
 	}
+}
+
+// alwaysNewError: every return of f hands back an error freshly built by ErrorCode.New (and nothing else happens that
+// could matter to the dispatch: the function calls nothing but the error constructor and getters).
+func alwaysNewError(u *Universe, f *types.Func) bool {
+	fn := u.Prog.FuncValue(f)
+	if fn == nil || len(fn.Blocks) == 0 || fn.Signature.Results().Len() != 1 {
+		return false
+	}
+	n, good := 0, true
+	forEachOwnInstr(fn, func(in ssa.Instruction) {
+		ret, ok := in.(*ssa.Return)
+		if !ok {
+			return
+		}
+		n++
+		for _, v := range resolvePhisOwn(ret.Results[0]) {
+			c, isCall := stripIface(v).(*ssa.Call)
+			if !isCall {
+				good = false
+				continue
+			}
+			co := calleeObj(c)
+			if co == nil || !isMethod(co, pErrors, "ErrorCode", "New") {
+				good = false
+			}
+		}
+	})
+	return good && n > 0
 }
